@@ -100,7 +100,9 @@ pub fn check_invariant(e: &mut Engine, res: &mut CaseResult, after: &str, rng: &
     match e.invariant(&raw) {
         Ok(problems) => {
             if let Some(p) = problems.first() {
-                let class = if p.starts_with("non-canonical") {
+                let class = if p.starts_with("name-indexed read") {
+                    "name-indexed-read-failed"
+                } else if p.starts_with("non-canonical") {
                     "non-canonical-id"
                 } else if p.contains("two rows for key") {
                     "duplicate-key"
